@@ -1,3 +1,4 @@
+import Oidc.Proofs.CodeCache
 import Oidc.Shapes
 import Oidc.Proofs.CacheLru
 import Oidc.Proofs.CacheImpl
@@ -96,5 +97,42 @@ theorem text_NewCache_ok : Oidc.Shapes.Text_NewCache := by unfold Oidc.Shapes.Te
 theorem text_Cache_Close_ok : Oidc.Shapes.Text_Cache_Close := by unfold Oidc.Shapes.Text_Cache_Close; rfl
 theorem text_Cache_startAutoCleanup_ok : Oidc.Shapes.Text_Cache_startAutoCleanup := by unfold Oidc.Shapes.Text_Cache_startAutoCleanup; rfl
 theorem text_autoCleanupRoutine_ok : Oidc.Shapes.Text_autoCleanupRoutine := by unfold Oidc.Shapes.Text_autoCleanupRoutine; rfl
+
+/-! ## The same statements about the code itself: the functions below are `Oidc.Generated.Code`, which `tools/go2lean` translates
+    from /repo's source, statement by statement, on every run (meaning of the Go constructs: `Oidc/GoLib.lean`) -/
+open Oidc.Generated Oidc.CodeRefine in
+/-- cache.go as translated, after any history from `NewCache()` with capacity `n > 0`: the three structures are mutually
+    consistent (same keys, no duplicates), of equal size, and hold at most `n` entries -/
+theorem code_three_structures_consistent (enc : Go.Any → Nat) (n : Int) (hn : 0 < n) (ops : List COp) :
+    let c := absC enc (ops.foldl codeStep ⟨[], [], [], n⟩)
+    c.order.Nodup ∧ c.elems.Nodup ∧ NoDup c.items ∧ (∀ k, k ∈ c.elems ↔ k ∈ c.order) ∧
+    c.items.length = c.order.length ∧ c.order.length ≤ n.toNat := by
+  intro c
+  have h1 : c = Oidc.CacheImpl.run false (Oidc.CacheImpl.init n.toNat) (ops.map (COp.abs enc)) :=
+    (code_history enc n (Int.le_of_lt hn) ops).1
+  have hc := Oidc.CacheImpl.consistent false n.toNat (by omega) (ops.map (COp.abs enc))
+  simp only [] at hc
+  rw [h1]
+  exact ⟨hc.1, hc.2.1, hc.2.2.1, hc.2.2.2.1, hc.2.2.2.2.2.1, hc.2.2.2.2.2.2⟩
+
+open Oidc.Generated Oidc.CodeRefine in
+/-- each exported operation of the translated cache is the model's step (`Set` with its eviction scan, `Get` with its move to the
+    back, `Delete`, `Cleanup`), and `Set` always terminates -/
+theorem code_step (enc : Go.Any → Nat) (c : Go.CacheS) (op : COp) (h : CInv enc c) :
+    absC enc (codeStep c op) = Oidc.CacheImpl.step false (absC enc c) (op.abs enc) ∧ CInv enc (codeStep c op) :=
+  codeStep_refines enc c op h
+
+open Oidc.Generated Oidc.CodeRefine in
+theorem code_Set_terminates (enc : Go.Any → Nat) (now : Int) (c : Go.CacheS) (k : Go.Str) (v : Go.Any) (d : Int) (h : CInv enc c) :
+    (Code.Cache_Set (c.order.length + 1) now c k v d).isSome = true :=
+  Set_terminates enc now c k v d h
+
+open Oidc.Generated Oidc.CodeRefine in
+/-- the eviction scan of the translated code is the model's `evictOldest`: first expired entry in list order, else the front -/
+theorem code_evictOldest (enc : Go.Any → Nat) (now : Int) (c : Go.CacheS) (h : CInv enc c) :
+    ∃ c', Code.Cache_evictOldest (c.order.length + 1) now c = some c' ∧
+      absC enc c' = Oidc.CacheImpl.evictOldest false now (absC enc c) := by
+  obtain ⟨c', h1, h2, _⟩ := evictOldest_refines enc now c h (c.order.length + 1) (Nat.lt_succ_self _)
+  exact ⟨c', h1, h2⟩
 
 end Oidc.Props.C13
